@@ -199,3 +199,203 @@ package wasp
 //@   requires processor != nil && processor.encoder != nil && typeis(received, *packet.PubRel) && unbox(received, *packet.PubRel) != nil
 //@   ensures wrote(7) && #lastWireTo == c
 //@   ensures #handed == old(#handed)
+
+// ---- writer.go (C01, C03, C06, C11, C14, C17) ---------------------------------------------------
+
+// The identifier pool seen through its interface: pool_out(m, x) = x is outstanding (handed out, not returned).
+//@ pred pool_out(m midPool, x int32) := typeis(m, *simpleMidPool) && unbox(m, *simpleMidPool).min <= x && x <= unbox(m, *simpleMidPool).max
+//@        && !pool_free(unbox(m, *simpleMidPool), x)
+//@   opaque
+//@ pred pool_ok(m midPool) := typeis(m, *simpleMidPool) && pool_wf(unbox(m, *simpleMidPool))
+//@ func (midPool).Get(m midPool) (r int32)
+//@   requires pool_ok(m)
+//@   ensures pool_ok(m)
+//@   ensures r == -1 || (unbox(m, *simpleMidPool).min <= r && r <= unbox(m, *simpleMidPool).max)
+//@   ensures r != -1 ==> !old(pool_out(m, r)) && (forall x int32 :: pool_out(m, x) <==> (old(pool_out(m, x)) || x == r))
+//@   ensures r == -1 ==> (forall x int32 :: pool_out(m, x) <==> old(pool_out(m, x)))
+//@   modifies unbox(m, *simpleMidPool).intervals, unbox(m, *simpleMidPool).started, elems(unbox(m, *simpleMidPool).intervals)
+//@ func (midPool).Put(m midPool, mid int32)
+//@   requires pool_ok(m)
+//@   ensures pool_ok(m)
+//@   ensures forall x int32 :: pool_out(m, x) <==> (old(pool_out(m, x)) && x != mid)
+//@   modifies unbox(m, *simpleMidPool).intervals, unbox(m, *simpleMidPool).started, elems(unbox(m, *simpleMidPool).intervals)
+
+// the one implementation satisfies the interface contract (pool_out unfolded to the free-set view)
+//@ implements (*simpleMidPool).Get as (midPool).Get
+//@   reveals pool_out
+//@ implements (*simpleMidPool).Put as (midPool).Put
+//@   reveals pool_out
+
+// C06/C03: an identifier obtained for an outbound QoS>0 message is a valid MQTT identifier that was not outstanding
+//@ func (*writer).getFree(ctx context.Context) (r int32, err error)
+//@   requires w != nil && pool_ok(w.midPool) && unbox(w.midPool, *simpleMidPool).min == 0 && unbox(w.midPool, *simpleMidPool).max == 65535
+//@   ensures pool_ok(w.midPool)
+//@   ensures err == nil ==> 1 <= r && r <= 65535
+//@   ensures err == nil ==> !old(pool_out(w.midPool, r))
+//@   ensures err == nil ==> pool_out(w.midPool, r)
+//@   ensures forall x int32 :: x != r && x != 0 ==> (pool_out(w.midPool, x) <==> old(pool_out(w.midPool, x)))
+//@   ensures err != nil ==> (forall x int32 :: x != 0 ==> (pool_out(w.midPool, x) <==> old(pool_out(w.midPool, x))))
+//@ loop (*writer).getFree#1
+//@   invariant pool_ok(w.midPool) && unbox(w.midPool, *simpleMidPool).min == 0 && unbox(w.midPool, *simpleMidPool).max == 65535
+//@   invariant forall x int32 :: x != 0 ==> (pool_out(w.midPool, x) <==> old(pool_out(w.midPool, x)))
+
+// local registry, through its interface (state.go implements it; C20 covers its locking)
+//@ func (LocalState).Get(s LocalState, id string) (r *sessions.Session)
+//@   ensures r == asptr(#registry[id], *sessions.Session)
+//@   modifies nothing
+//@ func (LocalState).Create(s LocalState, id string, session *sessions.Session) (old *sessions.Session)
+//@   modifies #registry
+//@   ensures forall k string :: #registry[k] == (if k == id then session else old(#registry)[k])
+//@ func (LocalState).Delete(s LocalState, id string) (old *sessions.Session)
+//@   modifies #registry
+//@   ensures forall k string :: #registry[k] == (if k == id then 0 else old(#registry)[k])
+
+//@ pred wf_writer(w *writer) := w != nil && w.local != nil && w.inflights != nil && w.encoder != nil && w.state != nil
+//@        && pool_ok(w.midPool) && unbox(w.midPool, *simpleMidPool).min == 0 && unbox(w.midPool, *simpleMidPool).max == 65535
+//@ pred wf_session(s *sessions.Session) := s != nil && s.conn != nil
+
+// C03: a QoS 1 delivery is registered in the in-flight table under (session, identifier) awaiting PUBACK and then written
+// once; if registration fails nothing is written and the error is returned (the caller then releases the identifier)
+//@ func (*writer).sendQoS1(ctx context.Context, publish *packet.Publish, session *sessions.Session) (err error)
+//@   requires wf_writer(w) && wf_session(session) && publish != nil && publish.Header != nil
+//@   ensures wf_writer(w) && wf_session(session)
+//@   ensures err == nil ==> #inserts == old(#inserts) + 1 && #lastInsertPkt == asiface(publish) && #lastInsertPrefix == session.id
+//@   ensures err == nil ==> wrote(3) && #lastWirePkt == publish && #lastWireTo == session.conn
+//@   ensures err != nil ==> #inserts == old(#inserts) && wrote_nothing()
+//@   ensures forall x int32 :: pool_out(w.midPool, x) <==> old(pool_out(w.midPool, x))
+//@   records #pending := (if err == nil then update(old(#pending), publish.MessageId, true) else old(#pending))
+
+// expiry/acknowledgement callback of a QoS 1 delivery: re-sent with the SAME packet (same identifier) while the session
+// is registered and the acknowledgement is overdue; otherwise the identifier goes back to the pool and nothing is sent
+//@ func (*writer).sendQoS1$1(expired bool, stored packet.Packet, received packet.Packet)
+//@   requires wf_writer(w) && wf_session(session) && publish != nil && publish.Header != nil
+//@   requires typeis(stored, *packet.Publish) && unbox(stored, *packet.Publish) != nil
+//@   ensures (expired && #registry[session.id] != 0) ==> (forall x int32 :: pool_out(w.midPool, x) <==> old(pool_out(w.midPool, x)))
+//@   ensures (expired && #registry[session.id] != 0) ==> #inserts <= old(#inserts) + 1 && (#inserts == old(#inserts) + 1 ==> #lastInsertPkt == asiface(publish) && wrote(3) && #lastWirePkt == publish)
+//@   ensures (expired && #registry[session.id] != 0) ==> (#inserts == old(#inserts) ==> wrote_nothing())
+//@   ensures !(expired && #registry[session.id] != 0) ==> wrote_nothing() && #inserts == old(#inserts)
+//@   ensures !(expired && #registry[session.id] != 0) ==> (forall x int32 :: pool_out(w.midPool, x) <==> (old(pool_out(w.midPool, x)) && x != unbox(stored, *packet.Publish).MessageId))
+
+//@ func (*writer).sendQoS2(ctx context.Context, publish *packet.Publish, session *sessions.Session) (err error)
+//@   requires wf_writer(w) && wf_session(session) && publish != nil && publish.Header != nil
+//@   ensures wf_writer(w) && wf_session(session)
+//@   ensures err == nil ==> #inserts == old(#inserts) + 1 && #lastInsertPkt == asiface(publish) && #lastInsertPrefix == session.id
+//@   ensures err == nil ==> wrote(3) && #lastWirePkt == publish && #lastWireTo == session.conn
+//@   ensures err != nil ==> #inserts == old(#inserts) && wrote_nothing()
+//@   ensures forall x int32 :: pool_out(w.midPool, x) <==> old(pool_out(w.midPool, x))
+//@   records #pending := (if err == nil then update(old(#pending), publish.MessageId, true) else old(#pending))
+
+// PUBREL stage of an outbound QoS 2 delivery: registered awaiting PUBCOMP and written once
+//@ func (*writer).completeQoS2(ctx context.Context, pubRel *packet.PubRel, session *sessions.Session)
+//@   requires wf_writer(w) && wf_session(session) && pubRel != nil
+//@   ensures #inserts <= old(#inserts) + 1 && (#inserts == old(#inserts) + 1 ==> #lastInsertPkt == asiface(pubRel) && #lastInsertPrefix == session.id)
+//@   ensures wrote(6) && #lastWireTo == session.conn
+//@   ensures forall x int32 :: pool_out(w.midPool, x) <==> old(pool_out(w.midPool, x))
+
+//@ func (*writer).completeQoS2$1(expired bool, stored packet.Packet, received packet.Packet)
+//@   requires wf_writer(w) && wf_session(session) && pubRel != nil
+//@   requires typeis(stored, *packet.PubRel) && unbox(stored, *packet.PubRel) != nil
+//@   ensures (expired && #registry[session.id] != 0) ==> wrote(6) && (forall x int32 :: pool_out(w.midPool, x) <==> old(pool_out(w.midPool, x)))
+//@   ensures !(expired && #registry[session.id] != 0) ==> wrote_nothing() && #inserts == old(#inserts)
+//@   ensures !(expired && #registry[session.id] != 0) ==> (forall x int32 :: pool_out(w.midPool, x) <==> (old(pool_out(w.midPool, x)) && x != unbox(stored, *packet.PubRel).MessageId))
+
+// PUBREC/expiry callback of an outbound QoS 2 delivery
+//@ func (*writer).sendQoS2$1(expired bool, stored packet.Packet, received packet.Packet)
+//@   requires wf_writer(w) && wf_session(session) && publish != nil && publish.Header != nil
+//@   requires typeis(stored, *packet.Publish) && unbox(stored, *packet.Publish) != nil
+// session gone: identifier released, nothing sent
+//@   ensures #registry[session.id] == 0 ==> wrote_nothing() && #inserts == old(#inserts)
+//@   ensures #registry[session.id] == 0 ==> (forall x int32 :: pool_out(w.midPool, x) <==> (old(pool_out(w.midPool, x)) && x != unbox(stored, *packet.Publish).MessageId))
+// overdue: the same PUBLISH again
+//@   ensures #registry[session.id] != 0 && expired ==> #inserts <= old(#inserts) + 1 && (#inserts == old(#inserts) + 1 ==> #lastInsertPkt == asiface(publish) && wrote(3) && #lastWirePkt == publish)
+// PUBREC received: PUBREL with the stored identifier
+//@   ensures #registry[session.id] != 0 && !expired ==> wrote(6) && #lastWireTo == session.conn
+//@   ensures #registry[session.id] != 0 ==> (forall x int32 :: pool_out(w.midPool, x) <==> old(pool_out(w.midPool, x)))
+
+// the PUBREL of an outbound QoS 2 delivery carries the identifier of the PUBLISH it completes
+//@ callsite (*writer).sendQoS2$1 -> (*writer).completeQoS2(ctx context.Context, pubRel *packet.PubRel, session *sessions.Session)
+//@   requires pubRel.MessageId == unbox(stored, *packet.Publish).MessageId
+
+// ---- (*writer).send: per-recipient delivery (C01, C11, C17) ----
+// A-PREFIX: every topic that reaches the writer carries the mount point of each recipient it was resolved for
+// (publish topics are prefixed by Process, subscription filters likewise, and matching compares the first level).
+//@ pred send_ok(w *writer, recipients []string, p *packet.Publish) := forall i int :: {recipients[i]} 0 <= i && i < len(recipients) && #registry[recipients[i]] != 0 ==>
+//@        wf_session(asptr(#registry[recipients[i]], *sessions.Session)) && len(p.Topic) > len(asptr(#registry[recipients[i]], *sessions.Session).mountPoint)
+
+//@ func (*writer).send(ctx context.Context, recipients []string, qosses []int32, p *packet.Publish)
+//@   requires wf_writer(w) && len(qosses) == len(recipients)
+//@   requires p != nil ==> p.Header != nil && send_ok(w, recipients, p)
+//@   ensures wf_writer(w)
+//@   ensures p == nil ==> wrote_nothing()
+//@   ensures #wire[3] <= old(#wire)[3] + len(recipients)
+//@   ensures forall t int :: t != 3 ==> #wire[t] == old(#wire)[t]
+// C03/C06: no identifier leaks: whatever is newly outstanding afterwards belongs to a delivery registered in flight
+//@   ensures forall x int32 :: pool_out(w.midPool, x) ==> old(pool_out(w.midPool, x)) || x == 0 || #pending[x]
+//@ loop (*writer).send#1
+//@   invariant forall x int32 :: pool_out(w.midPool, x) ==> old(pool_out(w.midPool, x)) || x == 0 || #pending[x]
+//@   invariant forall x int32 :: old(#pending)[x] ==> #pending[x]
+//@   invariant -1 <= rangeindex && rangeindex < len(recipients) && wf_writer(w) && send_ok(w, recipients, p) && p != nil && p.Header != nil
+//@   invariant #wire[3] <= old(#wire)[3] + rangeindex + 1
+//@   invariant forall t int :: t != 3 ==> #wire[t] == old(#wire)[t]
+
+// what is written for recipient idx: to the connection of the session registered under that id, and only if there is one (C11);
+// topic with the mount point stripped (C17), payload, DUP and RETAIN as stored, QoS of the subscription (C01, C07)
+//@ callsite (*writer).send -> (*github.com/vx-labs/mqtt-protocol/encoder.Encoder).Publish(e *encoder.Encoder, wr io.Writer, pub *packet.Publish)
+//@   requires session != nil && session == asptr(#registry[recipients[idx]], *sessions.Session) && wr == session.conn
+//@   requires pub.Payload == p.Payload && pub.Header.Retain == p.Header.Retain && pub.Header.Dup == p.Header.Dup && pub.Header.Qos == 0 && qosses[idx] == 0
+//@   requires len(pub.Topic) == len(p.Topic) - len(session.mountPoint) - 1
+//@ callsite (*writer).send -> (*writer).sendQoS1(ctx2 context.Context, pub *packet.Publish, sess *sessions.Session)
+//@   requires sess == asptr(#registry[recipients[idx]], *sessions.Session) && pub.Payload == p.Payload && pub.Header.Retain == p.Header.Retain
+//@   requires pub.Header.Qos == 1 && qosses[idx] == 1 && 1 <= pub.MessageId && pub.MessageId <= 65535 && pool_out(w.midPool, pub.MessageId)
+//@   requires len(pub.Topic) == len(p.Topic) - len(sess.mountPoint) - 1
+//@ callsite (*writer).send -> (*writer).sendQoS2(ctx2 context.Context, pub *packet.Publish, sess *sessions.Session)
+//@   requires sess == asptr(#registry[recipients[idx]], *sessions.Session) && pub.Payload == p.Payload && pub.Header.Retain == p.Header.Retain
+//@   requires pub.Header.Qos == 2 && qosses[idx] == 2 && 1 <= pub.MessageId && pub.MessageId <= 65535 && pool_out(w.midPool, pub.MessageId)
+//@   requires len(pub.Topic) == len(p.Topic) - len(sess.mountPoint) - 1
+// C03/C06: an identifier whose delivery could not be registered goes straight back to the pool
+//@ callsite (*writer).send -> (midPool).Put(m midPool, id int32)
+//@   requires id == mid && err != nil
+
+// ---- (*writer).Run: log consumer side (C01, C02, C14) ---------------------------------------
+// jobs on the writer queue: either a log offset (fromLog) or a direct send carrying the publish itself
+//@ chan RoutedMessage(v)
+//@   invariant !v.fromLog ==> v.publish != nil && v.publish.Header != nil && len(v.qosses) == len(v.recipients)
+
+//@ func (*writer).Schedule(ctx context.Context, offset uint64)
+//@   requires w != nil
+//@ func (*writer).Send(ctx context.Context, recipients []string, qosses []int32, p *packet.Publish)
+//@   requires w != nil && len(qosses) == len(recipients) && p != nil && p.Header != nil
+
+// A-LOG: an entry read back from the message log is a publish that was appended, and every appended publish has a header
+//@ trusted func (messageLog).Get(l messageLog, offset uint64) (p *packet.Publish, err error)
+//@   ensures err == nil ==> p != nil && p.Header != nil
+//@   modifies nothing
+
+// number of subscriptions from position k on that are served by this node
+//@ fun rest(subs []api.Subscription, peer uint64, k int) int :=
+//@     if k >= len(subs) then 0 else (if subs[k].Peer == peer then 1 else 0) + rest(subs, peer, k + 1)
+//@   opaque
+// provable by induction on len(subs) - k (not mechanised: listed as an axiom)
+//@ axiom rest_nonneg: forall subs []api.Subscription, peer uint64, k int :: rest(subs, peer, k) >= 0
+
+// C02: a job without a publish is a log offset and MUST be read back from the log (also offset 0, the first entry ever)
+//@ callsite (*writer).Run -> (*writer).send(ctx2 context.Context, rcpts []string, qs []int32, pub *packet.Publish)
+//@   requires pub != nil
+
+//@ func (*writer).Run(ctx context.Context, log messageLog) (err error)
+//@   requires wf_writer(w) && log != nil
+//@   reveals rest
+//@ loop (*writer).Run#1
+//@   invariant wf_writer(w) && log != nil
+// counting pass: c is the number of subscriptions of this node seen so far
+//@ loop (*writer).Run#2
+//@   invariant -1 <= rangeindex && rangeindex < len(subscriptions) && wf_writer(w) && log != nil && p != nil && p.Header != nil
+//@   invariant c + rest(subscriptions, w.peerID, rangeindex + 1) == rest(subscriptions, w.peerID, 0) && c >= 0 && c <= rangeindex + 1
+// filling pass (C01, C14): the k-th subscription served by this node lands in the slot given by its rank, with its session and QoS
+//@ loop (*writer).Run#3
+//@   invariant -1 <= rangeindex && rangeindex < len(subscriptions) && wf_writer(w) && log != nil && p != nil && p.Header != nil
+//@   invariant len(recipients) == c && len(qosses) == c && c == rest(subscriptions, w.peerID, 0) && fresh(recipients) && fresh(qosses)
+//@   invariant idx + rest(subscriptions, w.peerID, rangeindex + 1) == c && 0 <= idx
+//@   invariant forall k int :: {subscriptions[k]} 0 <= k && k <= rangeindex && subscriptions[k].Peer == w.peerID ==>
+//@        0 <= c - rest(subscriptions, w.peerID, k) && c - rest(subscriptions, w.peerID, k) < idx &&
+//@        recipients[c - rest(subscriptions, w.peerID, k)] == subscriptions[k].SessionID && qosses[c - rest(subscriptions, w.peerID, k)] == subscriptions[k].QoS
